@@ -36,6 +36,8 @@ def configs(n, seed):
         if i % 6 == 5:
             # other peers hold the low slots: the client's userid is 10..15 (a letter in every data query name)
             sess["occupy"] = 10 + (i // 6) % 6
+        elif i % 6 == 2:
+            sess["prior"] = True        # the client inherits a slot whose earlier tenant had negotiated other settings
         out.append((sess, dict(path)))
     rng.shuffle(out)
     return out
